@@ -136,6 +136,11 @@ func isScalarSlice(t types.Type) bool {
 // localAliases maps single-definition locals to their defining expression when that expression is a view
 // (selector/index/slice/star/address chain, x.El(), type assertion) — not a call producing a fresh value.
 func localAliases(info *types.Info, fd *ast.FuncDecl) map[types.Object][]ast.Expr {
+	return localAliasesMode(info, fd, true)
+}
+
+// localAliasesMode: with multi=false only single-definition locals are followed (no may-alias union).
+func localAliasesMode(info *types.Info, fd *ast.FuncDecl, multi bool) map[types.Object][]ast.Expr {
 	defs := map[types.Object][]ast.Expr{}
 	ast.Inspect(fd.Body, func(n ast.Node) bool {
 		switch x := n.(type) {
@@ -177,6 +182,9 @@ func localAliases(info *types.Info, fd *ast.FuncDecl) map[types.Object][]ast.Exp
 	})
 	out := map[types.Object][]ast.Expr{}
 	for o, ds := range defs {
+		if !multi && len(ds) != 1 {
+			continue
+		}
 		for _, d := range ds {
 			if d != nil && isViewExpr(d) {
 				out[o] = append(out[o], d)
@@ -224,6 +232,9 @@ type rootInfo struct {
 	// deref: beyond the first field, the expression goes through a pointer, slice or map (so that a store to it
 	// lands in memory that a plain struct copy shares)
 	deref bool
+	// copied: the expression went through a local variable holding a struct *value* copied out of the root;
+	// deref then only records pointer traversals made after that copy.
+	copied bool
 }
 
 // rootsOf resolves an lvalue expression to the objects (parameters, receiver, package vars) it is rooted at, following
@@ -246,6 +257,15 @@ func rootsOf(info *types.Info, e ast.Expr, aliases map[types.Object][]ast.Expr, 
 			var rs []rootInfo
 			for _, a := range as {
 				rs = append(rs, rootsOf(info, a, aliases, depth+1)...)
+			}
+			if _, isStruct := o.Type().Underlying().(*types.Struct); isStruct {
+				for i := range rs {
+					rs[i].copied = true
+					rs[i].deref = false
+					if rs[i].field == "" {
+						rs[i].field = "*"
+					}
+				}
 			}
 			return rs
 		}
